@@ -206,7 +206,7 @@ pub fn run(ctx: &Ctx) {
     );
     ctx.assume("application drains every event iterator; < 500 unacknowledged vital chunks; in-flight datagrams expire once either side advanced 400 sequence numbers (500+400 < 1024)");
     ctx.assume("0.6-without-token variant = the harness rewrites the connector's Connect datagram to the tokenless 4-byte form (a vanilla client), as the repository's own test does");
-    let max_ops = ctx.n(300, 1500) as usize;
+    let max_ops = ctx.sz(300, 1500) as usize;
     for v in VARIANTS {
         let max_len = max_len_for(v, ctx);
         ctx.prop(
